@@ -105,6 +105,15 @@ Theorem C02_nonce_discipline :
 Proof. exact below_ctr. Qed.
 Print Assumptions C02_nonce_discipline.
 
+(* How the receive nonce advances: a poll_read decrypts at most one frame; the counter moves, by
+   exactly one, only in a call that returns bytes (errors, Pending and failed decryptions leave it
+   alone) — from any state. *)
+Theorem C02_nonce_step :
+  forall e b sc r x r' sc', poll_read e b sc r = (x, r', sc') ->
+  r_ctr r' = r_ctr r \/ (r_ctr r' = r_ctr r + 1 /\ exists n pos, x = RReady n pos).
+Proof. exact poll_ctr_step. Qed.
+Print Assumptions C02_nonce_step.
+
 (* A reader state that is in order stays in order when the network appends to the wire (data
    arriving in several deliveries). *)
 Theorem C02_wire_grows :
